@@ -374,12 +374,31 @@ pub fn candidates(function: &str, seed: u64) -> Vec<Value> {
             for pol in [true, false] { out.push(json!({"case": "bdd_newvar", "order": order, "pol": pol, "shape": shape, "only": only})); }
         }
     }
-    // random programs
+    // four variables, systematic: f = o1(o2(v0, v1), [neg] o3(v2, v3)), then every condition / exists; all 24 orders.
+    // (some conditioning defects need a shared complemented node above the conditioned variable: no 3-variable witness)
+    if !smooth_only {
+        let perms4: Vec<Vec<u64>> = { let mut v = vec![]; for a in 0..4u64 { for b in 0..4u64 { for c in 0..4u64 { for d in 0..4u64 { let p = vec![a, b, c, d]; let mut q = p.clone(); q.sort(); q.dedup(); if q.len() == 4 { v.push(p); } } } } } v };
+        for (pi, order) in perms4.iter().enumerate() {
+            for o1 in ["and", "or", "xor"] { for o2 in ["and", "or"] { for o3 in ["and", "or", "xor"] { for ng in [false, true] {
+                if (pi + o1.len() + o3.len()) % 3 != 0 && order != &vec![0, 1, 2, 3] { continue; }   // thin out the non-linear orders
+                let cache = if lru_only || pi % 2 == 1 { "lru" } else { "all" };
+                let mut q: Vec<Value> = (0..4).map(|l| json!(["var", l, true])).collect();
+                q.push(json!([o2, 0, 1])); q.push(json!([o3, 2, 3]));
+                let right = if ng { q.push(json!(["neg", 5])); 6 } else { 5 };
+                q.push(json!([o1, 4, right]));
+                let top = q.len() - 1;
+                for l in 0..4 { q.push(json!(["cond", top, l, true])); q.push(json!(["cond", top, l, false])); q.push(json!(["exists", top, l])); }
+                out.push(json!({"case": "bdd_prog", "order": order, "cache": cache, "ops": q, "shape": shape, "only": only}));
+            } } } }
+        }
+    }
+    // random programs over three and (every third) four variables
     let mut rng = Rng(seed.wrapping_add(12345));
     for t in 0..3000 {
-        let order = ORDERS[rng.next(6)];
+        let nv = if t % 3 == 2 && !smooth_only { 4 } else { 3 };
+        let order: Vec<u64> = if nv == 3 { ORDERS[rng.next(6)].to_vec() } else { let mut o: Vec<u64> = (0..4).collect(); for i in (1..4).rev() { let j = rng.next(i + 1); o.swap(i, j); } o };
         let cache = if rng.next(2) == 0 && !lru_only { "all" } else { "lru" };
-        let mut ops: Vec<Value> = (0..3).map(|l| json!(["var", l, true])).collect();
+        let mut ops: Vec<Value> = (0..nv).map(|l| json!(["var", l, true])).collect();
         let len = 4 + rng.next(10);
         for _ in 0..len {
             let n = ops.len();
@@ -390,20 +409,19 @@ pub fn candidates(function: &str, seed: u64) -> Vec<Value> {
                 3 => json!(["iff", rng.next(n), rng.next(n)]),
                 4 => json!(["xor", rng.next(n), rng.next(n)]),
                 5 | 6 => json!(["ite", rng.next(n), rng.next(n), rng.next(n)]),
-                7 => json!(["cond", rng.next(n), rng.next(3), rng.next(2) == 0]),
-                8 => json!(["exists", rng.next(n), rng.next(3)]),
-                9 => json!(["compose", rng.next(n), rng.next(3), rng.next(n)]),
+                7 => json!(["cond", rng.next(n), rng.next(nv), rng.next(2) == 0]),
+                8 => json!(["exists", rng.next(n), rng.next(nv)]),
+                9 => json!(["compose", rng.next(n), rng.next(nv), rng.next(n)]),
                 10 => match rng.next(5) {
                     0 => json!(["semhash", rng.next(n)]),
-                    1 => { let k = rng.next(3); let pairs: Vec<Value> = (0..k).map(|_| json!([rng.next(3), rng.next(2) == 0])).collect(); json!(["condmodel", rng.next(n), pairs]) }
+                    1 => { let k = rng.next(3); let pairs: Vec<Value> = (0..k).map(|_| json!([rng.next(nv), rng.next(2) == 0])).collect(); json!(["condmodel", rng.next(n), pairs]) }
                     2 => { let k = rng.next(4); let l: Vec<Value> = (0..k).map(|_| json!(rng.next(n))).collect(); json!([if rng.next(2) == 0 { "andlst" } else { "orlst" }, l]) }
-                    _ => json!(["var", rng.next(3), rng.next(2) == 0]),
+                    _ => json!(["var", rng.next(nv), rng.next(2) == 0]),
                 },
                 _ => json!(["smooth", rng.next(n), rng.next(4)]),
             };
             ops.push(op);
         }
-        let _ = t;
         out.push(json!({"case": "bdd_prog", "order": order, "cache": cache, "ops": ops, "shape": shape, "only": only}));
     }
     out
